@@ -1,0 +1,159 @@
+//! Verification hooks.  Only compiled with `--cfg resolved_verif`; nothing in
+//! here is reachable from a normal build.
+//!
+//! - a virtual clock for `cache.rs` (H1),
+//! - an event log written at the cache's linearisation points, i.e. while the
+//!   caller holds the `SharedCache` mutex (H2),
+//! - interception of the upstream transport in `util/nameserver.rs` (H3).
+
+use std::future::Future;
+use std::net::SocketAddr;
+use std::pin::Pin;
+use std::sync::atomic::{AtomicU64, Ordering};
+use std::sync::{Arc, Mutex, OnceLock};
+use std::time::Duration;
+
+use dns_types::protocol::types::{DomainName, QueryType, ResourceRecord};
+
+static OFFSET_MS: AtomicU64 = AtomicU64::new(0);
+static BASE: OnceLock<std::time::Instant> = OnceLock::new();
+
+/// The instant the virtual clock counts from.
+pub fn base() -> std::time::Instant {
+    *BASE.get_or_init(std::time::Instant::now)
+}
+
+/// Set the virtual clock, in milliseconds since `base()`.
+pub fn set_clock_ms(ms: u64) {
+    OFFSET_MS.store(ms, Ordering::SeqCst);
+}
+
+/// Read the virtual clock.
+pub fn clock_ms() -> u64 {
+    OFFSET_MS.load(Ordering::SeqCst)
+}
+
+/// Milliseconds since `base()` of a real instant (for inspection dumps).
+pub fn to_ms(t: std::time::Instant) -> u64 {
+    u64::try_from(t.saturating_duration_since(base()).as_millis()).unwrap_or(u64::MAX)
+}
+
+/// Shadows `std::time::Instant` inside the functions of `cache.rs` that read
+/// the clock.
+pub struct Instant;
+
+impl Instant {
+    #[allow(clippy::new_ret_no_self)]
+    pub fn now() -> std::time::Instant {
+        base() + Duration::from_millis(clock_ms())
+    }
+}
+
+/// One stored record as seen by `Cache::verif_inspect`.
+#[derive(Debug, Clone)]
+pub struct InspectRecord {
+    pub rr: ResourceRecord,
+    pub expires_ms: u64,
+}
+
+/// One partition (domain name) as seen by `Cache::verif_inspect`.
+#[derive(Debug, Clone)]
+pub struct InspectPartition {
+    pub name: DomainName,
+    pub last_read_ms: u64,
+    pub next_expiry_ms: u64,
+    pub size: usize,
+    pub records: Vec<InspectRecord>,
+}
+
+/// Read-only dump of a cache.
+#[derive(Debug, Clone)]
+pub struct Inspect {
+    pub partitions: Vec<InspectPartition>,
+    pub access_queue: Vec<(DomainName, u64)>,
+    pub expiry_queue: Vec<(DomainName, u64)>,
+    pub current_size: usize,
+    pub desired_size: usize,
+}
+
+/// What happened at a linearisation point of the cache.
+#[derive(Debug, Clone)]
+pub enum CacheOp {
+    Get {
+        name: DomainName,
+        qtype: QueryType,
+        result: Vec<ResourceRecord>,
+    },
+    Insert {
+        record: ResourceRecord,
+    },
+    Prune {
+        result: (bool, usize, usize, usize),
+    },
+}
+
+#[derive(Debug, Clone)]
+pub struct CacheEvent {
+    pub seq: usize,
+    pub thread: String,
+    pub now_ms: u64,
+    pub op: CacheOp,
+    pub after: Inspect,
+}
+
+static EVENTS: Mutex<Option<Vec<CacheEvent>>> = Mutex::new(None);
+
+/// Start (or restart) recording cache events.
+pub fn start_recording() {
+    *EVENTS.lock().unwrap() = Some(Vec::new());
+}
+
+/// Stop recording and return what was recorded.
+pub fn take_events() -> Vec<CacheEvent> {
+    EVENTS.lock().unwrap().take().unwrap_or_default()
+}
+
+/// Called by the cache, after the state change, while the caller still holds
+/// whatever lock protects the cache.
+pub fn cache_event(op: CacheOp, after: impl FnOnce() -> Inspect) {
+    let mut guard = EVENTS.lock().unwrap();
+    if let Some(events) = guard.as_mut() {
+        let seq = events.len();
+        events.push(CacheEvent {
+            seq,
+            thread: format!("{:?}", std::thread::current().id()),
+            now_ms: clock_ms(),
+            op,
+            after: after(),
+        });
+    }
+}
+
+/// A replacement for the network: `(is_tcp, address, request octets)` to the
+/// reply octets, or `None` for a transport error.  A transport that never
+/// answers simply never completes.
+pub type Transport = Arc<
+    dyn Fn(bool, SocketAddr, Vec<u8>) -> Pin<Box<dyn Future<Output = Option<Vec<u8>>> + Send>>
+        + Send
+        + Sync,
+>;
+
+static TRANSPORT: Mutex<Option<Transport>> = Mutex::new(None);
+
+/// Install or remove the transport.
+pub fn set_transport(transport: Option<Transport>) {
+    *TRANSPORT.lock().unwrap() = transport;
+}
+
+/// If a transport is installed, perform the exchange through it.
+pub async fn intercept(
+    is_tcp: bool,
+    address: SocketAddr,
+    request: &[u8],
+) -> Option<Option<Vec<u8>>> {
+    let transport = TRANSPORT.lock().unwrap().clone();
+    match transport {
+        Some(t) => Some(t(is_tcp, address, request.to_vec()).await),
+        None => None,
+    }
+}
